@@ -207,6 +207,38 @@ impl Iterator for Endless {{
     }}
 }}
 
+/// A source that itself calls the emitted `parse` (on the same token kinds) while the outer `parse` is
+/// waiting for a token: a lexer that parses an interpolated fragment with the same parser.  `parse` must
+/// be re-entrant: both calls see the same input and must give the same answer.
+struct Reentrant {{
+    inner: It,
+    at: usize,
+    done: bool,
+    nested: Rc<std::cell::RefCell<String>>,
+}}
+
+impl Iterator for Reentrant {{
+    type Item = gen::{tok};
+    fn next(&mut self) -> Option<gen::{tok}> {{
+        if !self.done && self.inner.i >= self.at {{
+            self.done = true;
+            let some = Rc::new(Cell::new(0usize));
+            let total = Rc::new(Cell::new(0usize));
+            let r = gen::parse(It {{ kinds: self.inner.kinds.clone(), i: 0, scheme: self.inner.scheme, some: some.clone(), total, late: 0, ended: false }});
+            *self.nested.borrow_mut() = render(r, some.get().to_string());
+        }}
+        self.inner.next()
+    }}
+}}
+
+fn render(r: Result<gen::{start}, Option<gen::{tok}>>, pulls: String) -> String {{
+    match r {{
+        Ok(t) => format!("OK {{}} {{:?}}", pulls, t),
+        Err(Some(t)) => format!("ES {{}} {{:?}}", pulls, t),
+        Err(None) => format!("EN {{}}", pulls),
+    }}
+}}
+
 fn run_line(line: &str) -> String {{
     let mut parts = line.split_whitespace();
     let flavour: usize = parts.next().unwrap().parse().unwrap();
@@ -215,10 +247,16 @@ fn run_line(line: &str) -> String {{
     let some = Rc::new(Cell::new(0usize));
     let total = Rc::new(Cell::new(0usize));
     let (s2, t2) = (some.clone(), total.clone());
+    let nested = Rc::new(std::cell::RefCell::new(String::new()));
+    let nested2 = nested.clone();
     let r = std::panic::catch_unwind(std::panic::AssertUnwindSafe(move || -> Result<gen::{start}, Option<gen::{tok}>> {{
         match flavour {{
             0 => gen::parse(It {{ kinds, i: 0, scheme, some: s2, total: t2, late: 0, ended: false }}),
             3 => gen::parse(It {{ kinds, i: 0, scheme, some: s2, total: t2, late: 40, ended: false }}),
+            5 => {{
+                let at = kinds.len() / 2;
+                gen::parse(Reentrant {{ inner: It {{ kinds, i: 0, scheme, some: s2, total: t2, late: 0, ended: false }}, at, done: false, nested: nested2 }})
+            }}
             4 => gen::parse(Endless {{ inner: It {{ kinds, i: 0, scheme, some: s2, total: t2, late: 0, ended: false }} }}),
             1 => {{
                 let v: Vec<gen::{tok}> = kinds.iter().enumerate().map(|(p, k)| mk(*k, p, scheme)).collect();
@@ -246,9 +284,14 @@ fn run_line(line: &str) -> String {{
             let msg = if let Some(s) = e.downcast_ref::<&str>() {{ s.to_string() }} else if let Some(s) = e.downcast_ref::<String>() {{ s.clone() }} else {{ "?".to_string() }};
             format!("PANIC {{}}", msg.replace('\n', " "))
         }}
-        Ok(Ok(t)) => format!("OK {{}} {{:?}}", pulls, t),
-        Ok(Err(Some(t))) => format!("ES {{}} {{:?}}", pulls, t),
-        Ok(Err(None)) => format!("EN {{}}", pulls),
+        Ok(r) => {{
+            let outer = render(r, pulls);
+            if flavour == 5 {{
+                format!("{{}} ||NESTED|| {{}}", outer, nested.borrow())
+            }} else {{
+                outer
+            }}
+        }}
     }}
 }}
 
